@@ -283,9 +283,18 @@ def _run_aio(frontend, framing_cls, ctx, script, flags):
                     except BaseException as e:
                         exc = e
                     res.escaped.append((c, 'handler task ended: %r' % (exc,)))
+            serving_errors = list(loop_errors)
             if not h.handler_task.done():
                 h.handler_task.cancel()
             await asyncio.sleep(0)
+            # what the handler does when it is cancelled at shutdown is not part of serving requests
+            if h.handler_task.done() and not h.handler_task.cancelled():
+                try:
+                    h.handler_task.exception()
+                except BaseException:
+                    pass
+            del loop_errors[:]
+            loop_errors.extend(serving_errors)
 
     loop = asyncio.new_event_loop()
     try:
